@@ -52,7 +52,7 @@ Close Scope string_scope.
 
 (* (a) For every spec and every adjustment that is well formed (wf_gen, Spec/GenSpec.v: no key set twice in
    the mounts / environment / device lists, settable variable names, the scalars a record; the spec's
-   environment entries "key=value" with distinct non-empty keys, distinct mount destinations, device paths
+   environment entries "key=value" or bare "key" with distinct non-empty keys, distinct mount destinations, device paths
    and hugepage sizes) the generator's result is observably the reference semantics apply_adj of the
    adjustment: what is marked is removed, what is given is set, a set wins over a removal of the same key,
    everything else is untouched, every requested CPU / memory-limit / hugepage / unified / pids /
@@ -73,6 +73,29 @@ Example C13_refines_apply_example :
   wf_gen ex_s ex_a = true /\
   c_env (sp_c (gen_adjust ex_a ex_s)) = ["A=9"; "C=3"; "D=4"]%string /\
   c_ann (sp_c (gen_adjust ex_a ex_s)) = [("k1", "new"); ("k3", "v3")]%string.
+Proof. vm_compute. repeat split. Qed.
+
+(* the environment as a LIST: the existing entries in their order, an entry that is set replaced in place,
+   one that is removed dropped, every other one — "key=value" or a bare "key" without '=' — untouched at its
+   position; then the new variables in the order of the adjustment (env_expected, Spec/GenSpec.v).  In
+   particular the entries the adjustment does not name are the same entries in the same relative order. *)
+Theorem C13_env_exact :
+  forall s a, wf_gen s a = true ->
+    c_env (sp_c (gen_adjust a s)) = env_expected (a_env a) (c_env (sp_c s)) /\
+    filter (env_unnamed (a_env a)) (c_env (sp_c (gen_adjust a s))) = filter (env_unnamed (a_env a)) (c_env (sp_c s)).
+Proof. exact gen_env_exact_b. Qed.
+Print Assumptions C13_env_exact.
+
+(* non-vacuity of the widened W3: existing entries without '=' — one untouched, one set, one removed *)
+Example C13_env_bare_entries_example :
+  let c := {| c_id := "c"; c_ann := []; c_mounts := []; c_env := ["A=1"; "FOO"; "B=2"; "BAR"; "BAZ"; "C="]%string;
+              c_args := []; c_hooks := hooks_empty; c_rlimits := []; c_devices := []; c_res := res_empty;
+              c_cgroups := ""%string; c_oom := None |} in
+  let s := {| sp_c := c; sp_cdi := []; sp_rules := [] |} in
+  let a := Result.with_a_env adj_empty [("BAR", "x"); ("-BAZ", ""); ("-A", ""); ("N", "n")]%string in
+  wf_gen s a = true /\
+  c_env (sp_c (gen_adjust a s)) = ["FOO"; "B=2"; "BAR=x"; "C="; "N=n"]%string /\
+  obs_eqb (sp_c (gen_adjust a s)) (apply_adj (cleared_classes a (sp_c s)) (gen_view a)) = true.
 Proof. vm_compute. repeat split. Qed.
 
 (* the run-time predicate holds_C13 (Run/RunAdapt.v), which ./check evaluates on the REAL generator's
